@@ -12,8 +12,10 @@ the cache mutex, so an interleaving of goroutines is a sequence of operations.
 * `clear_effective`, `get_after_clear_miss`       targeted invalidation removes every dependent entry
 * `stale_writer_rejected_*`, `fresh_writer_stored` the two token checks of `Add`
 * `never_stale_token`                              no stored entry is older than an invalidation of a dependency
-* `never_stale`, `cache_invisible`                 under the coherent-writer discipline `Get` returns what a
-                                                   fresh generation returns, for the asking proxy
+* `never_stale`, `cache_invisible`                 coherent writers: every stored value comes from a snapshot agreeing with
+                                                   the current world on its declared deps; with `KeyDetermines`, `Get`
+                                                   returns what a fresh generation returns for the asking proxy
+* `versioned_key_witness`                          stale-but-unreachable entries (key versioning), entries are not claimed fresh
 * `never_stale_incoherent_witness`                 the discipline is necessary (model-level witness, cf. F8)
 * `key_injective_invisible`, `key_incomplete_witness`  sharing across proxies is exactly key (in)completeness
 * `index_justified`, `flush_no_leak`                after `Flush` the reverse index holds exactly the live dependencies
@@ -296,14 +298,17 @@ theorem never_stale_token (cap : Nat) (ops : List (Op K C V)) (hm : AllOps MonoC
 
 /-- The system around the cache, as far as the property needs it.
     `A` proxies/requests; `read a` the part of a request that generation reads; `X` config contents;
-    `W n` the world (content of every config) after `n` accepted changes; `depsOf r` the configs
-    generation reads for `r` (what `DependentConfigs()` must name); `gen r S` the generator on snapshot
-    `S`; `key a S` the cache key computed for request `a` **on snapshot `S`** (real keys hash names and
-    versions of configs found in the snapshot, e.g. the applicable DestinationRule or `peerAuthVersion`).
+    `W n` the world (content of every config) after `n` accepted changes; `depsOf r` the configs the entry
+    declares (`DependentConfigs()`); `gen r S` the generator on snapshot `S`; `key a S` the cache key computed
+    for request `a` **on snapshot `S`**.
 
-    Restriction of this formalisation: the dependency list is a function of the request part `read a`
-    alone, not of the snapshot (in the real code the *set* of applicable configs can change with the
-    snapshot; then the key changes as well, which the model does not express). -/
+    Generation may read configs that `depsOf` does NOT name (the real CDS/RDS generators do: PeerAuthentication,
+    the set of applicable DestinationRules/VirtualServices/EnvoyFilters, ...): the real keys then carry a version
+    or the names of those configs (`peerAuthVersion`, DR/VS/EF names), so that an entry generated before such a
+    change stays stored but can no longer be *reached*. This is what `KeyDetermines` states; nothing below claims
+    that stored entries are fresh.
+
+    Restriction of this formalisation: the declared dependency list is a function of `read a` alone. -/
 structure Discipline (K C V A R X : Type) where
   key : A → (C → X) → K
   read : A → R
@@ -313,20 +318,15 @@ structure Discipline (K C V A R X : Type) where
 
 variable {A R X : Type}
 
-/-- **GenLocal**: generation reads the world only through the declared dependencies
-    (`DependentConfigs()` names every config generation reads). A system hypothesis: validated on the
-    real generators by stream `writers`, not proved. -/
-def Discipline.GenLocal (D : Discipline K C V A R X) : Prop :=
-  ∀ r S S', (∀ d ∈ D.depsOf r, S d = S' d) → D.gen r S = D.gen r S'
-
-/-- the key reads the world only through the declared dependencies as well -/
-def Discipline.KeyLocal (D : Discipline K C V A R X) : Prop :=
-  ∀ a S S', (∀ d ∈ D.depsOf (D.read a), S d = S' d) → D.key a S = D.key a S'
-
-/-- **KeyComplete**: on one snapshot, the cache key determines everything generation reads of the
-    request. Validated on the real key functions by stream `keys`, not proved. -/
-def Discipline.KeyComplete (D : Discipline K C V A R X) : Prop :=
-  ∀ a b S, D.key a S = D.key b S → D.read a = D.read b
+/-- **KeyDetermines** (the system hypothesis; validated on the real key functions, `Cacheable()` and
+    `DependentConfigs()` by streams `keys` and `writers`, not proved): if the snapshot `S` an entry was generated
+    from for request `a` and the snapshot `S'` of a reader `b` agree on the entry's declared dependencies, and
+    the two keys - each computed on its own snapshot - are equal, then generation for `b` on `S'` yields what was
+    generated for `a` on `S`. It contains key completeness across proxies (`S = S'`) and key versioning of every
+    config generation reads beyond the declared dependencies. -/
+def Discipline.KeyDetermines (D : Discipline K C V A R X) : Prop :=
+  ∀ a b S S', (∀ d ∈ D.depsOf (D.read a), S d = S' d) → D.key a S = D.key b S' →
+    D.gen (D.read a) S = D.gen (D.read b) S'
 
 /-- What one writer / invalidator must respect (side condition of an operation, relative to the
     invalidations executed before it).
@@ -375,14 +375,15 @@ theorem world_stable {D : Discipline K C V A R X} {hist : List (Inval C)} (hf : 
     have h2 := ih (by omega) d hd
     rw [← h2, ← h1]; rfl
 
-/-- Ghost invariant of the disciplined system: every stored value is what generation yields on the
-    current world for some request whose key **on the current world** is the entry's key. -/
+/-- Ghost invariant of the disciplined system: every stored value was generated, for some request `a` and from
+    some snapshot `S`, under the key `key a S`, and `S` **agrees with the current world on every declared
+    dependency** of the entry. (Not: "is what generation yields now" - see `Discipline`.) -/
 structure FreshInv (D : Discipline K C V A R X) (c : Cache K C V) (hist : List (Inval C)) : Prop where
   tokinv : TokInv c hist
   frame : Frame D hist
-  fresh : ∀ e ∈ c.store, ∀ v, e.val = some v →
-    ∃ a, e.key = D.key a (D.W hist.length) ∧ e.deps = D.depsOf (D.read a) ∧
-      v = D.gen (D.read a) (D.W hist.length)
+  origin : ∀ e ∈ c.store, ∀ v, e.val = some v →
+    ∃ a S, e.key = D.key a S ∧ e.deps = D.depsOf (D.read a) ∧ v = D.gen (D.read a) S ∧
+      ∀ d ∈ e.deps, S d = D.W hist.length d
 
 theorem Frame.snoc_clear {D : Discipline K C V A R X} {hist : List (Inval C)} (hf : Frame D hist)
     (x : Inval C) (hx : ∀ d, x.covers d = false → D.W (hist.length + 1) d = D.W hist.length d) :
@@ -398,7 +399,7 @@ theorem Frame.snoc_clear {D : Discipline K C V A R X} {hist : List (Inval C)} (h
     simp only [Nat.sub_self, List.getElem_cons_zero] at hc
     exact hx d hc
 
-theorem FreshInv.step {D : Discipline K C V A R X} (hloc : D.GenLocal) (hkl : D.KeyLocal) {c : Cache K C V}
+theorem FreshInv.step {D : Discipline K C V A R X} {c : Cache K C V}
     {hist : List (Inval C)} (h : FreshInv D c hist) (op : Op K C V) (hc : Coherent D hist op) :
     FreshInv D (c.step op) (hist ++ op.inval) := by
   have htok := h.tokinv.step op hc.mono
@@ -406,11 +407,11 @@ theorem FreshInv.step {D : Discipline K C V A R X} (hloc : D.GenLocal) (hkl : D.
   | get k =>
     refine ⟨htok, by simpa [Op.inval] using h.frame, ?_⟩
     intro e he v hv
-    simpa [Op.inval] using h.fresh e (mem_get_store he) v hv
+    simpa [Op.inval] using h.origin e (mem_get_store he) v hv
   | flush =>
     refine ⟨htok, by simpa [Op.inval] using h.frame, ?_⟩
     intro e he v hv
-    simpa [Op.inval] using h.fresh e (mem_flush_store he) v hv
+    simpa [Op.inval] using h.origin e (mem_flush_store he) v hv
   | clearAll now newCap =>
     refine ⟨htok, ?_, fun e he => by cases he⟩
     exact h.frame.snoc_clear ⟨now, none⟩ (fun d hcv => by simp [Inval.covers] at hcv)
@@ -421,22 +422,19 @@ theorem FreshInv.step {D : Discipline K C V A R X} (hloc : D.GenLocal) (hkl : D.
       simp [Inval.covers] at hcv
       exact hc.2 d hcv
     · intro e he v hv
-      obtain ⟨a, hk, hd, hgen⟩ := h.fresh e (mem_clear_store he).1 v hv
+      obtain ⟨a, S, hk, hd, hgen, hag⟩ := h.origin e (mem_clear_store he).1 v hv
+      refine ⟨a, S, hk, hd, hgen, ?_⟩
+      intro d hdm
+      simp only [Op.inval, List.length_append, List.length_singleton]
       -- the surviving entry depends on nothing that was cleared: the new world agrees on its dependencies
-      have hagree : ∀ d ∈ D.depsOf (D.read a), D.W (hist.length + 1) d = D.W hist.length d := by
-        intro d hdm
-        exact hc.2 d ((clear_effective h.tokinv.inv.idx now cs ord).1 e he d (hd ▸ hdm))
-      refine ⟨a, ?_, hd, ?_⟩
-      · simp only [Op.inval, List.length_append, List.length_singleton]
-        rw [hk]; exact (hkl a _ _ hagree).symm
-      · simp only [Op.inval, List.length_append, List.length_singleton]
-        rw [hgen]; exact (hloc _ _ _ hagree).symm
+      rw [hag d hdm]
+      exact (hc.2 d ((clear_effective h.tokinv.inv.idx now cs ord).1 e he d hdm)).symm
   | add k v start deps =>
     refine ⟨htok, by simpa [Op.inval] using h.frame, ?_⟩
     intro e he w hw
     simp only [Op.inval, List.append_nil]
     rcases mem_add_store he with ho | ⟨tok, hst, hle, rfl⟩
-    · exact h.fresh e ho w hw
+    · exact h.origin e ho w hw
     · subst hst
       simp only at hw
       rcases hc with hnone | ⟨a, snap, hk, hdeps, hsn, hval, hcoh⟩
@@ -450,55 +448,53 @@ theorem FreshInv.step {D : Discipline K C V A R X} (hloc : D.GenLocal) (hkl : D.
             have h1 := hcoh j hj hsj ⟨d, hd, hcv⟩
             have h2 := h.tokinv.tok (hist[j]) (List.getElem_mem hj)
             omega
-        have hagree : ∀ d ∈ D.depsOf (D.read a), D.W snap d = D.W hist.length d := by
-          intro d hd
-          have := world_stable h.frame snap deps hun (hist.length - snap) (by omega) d (hdeps ▸ hd)
-          rw [← this]
-          congr 1
-          omega
         rw [hval] at hw
         injection hw with hw
-        refine ⟨a, ?_, hdeps, ?_⟩
-        · show k = _
-          rw [hk]; exact hkl a _ _ hagree
-        · rw [← hw]; exact hloc _ _ _ hagree
+        refine ⟨a, D.W snap, hk, hdeps, hw.symm, ?_⟩
+        intro d hd
+        have := world_stable h.frame snap deps hun (hist.length - snap) (by omega) d hd
+        rw [← this]
+        congr 1
+        omega
 
-theorem FreshInv.run {D : Discipline K C V A R X} (hloc : D.GenLocal) (hkl : D.KeyLocal) {c : Cache K C V}
+theorem FreshInv.run {D : Discipline K C V A R X} {c : Cache K C V}
     {hist : List (Inval C)} (h : FreshInv D c hist) (ops : List (Op K C V))
     (hc : AllOps (Coherent D) hist ops) : FreshInv D (c.run ops) (hist ++ histOf ops) := by
   induction ops generalizing c hist with
   | nil => simpa [histOf, Cache.run] using h
   | cons op ops ih =>
-    have := ih (h.step hloc hkl op hc.1) hc.2
+    have := ih (h.step op hc.1) hc.2
     simpa [histOf, Cache.run, List.append_assoc] using this
 
 theorem FreshInv.init (D : Discipline K C V A R X) (cap : Nat) : FreshInv D (Cache.new cap) [] :=
   ⟨⟨Inv.new cap, fun i hi => (by cases hi), fun e he => (by cases he)⟩,
    fun j hj => (by cases hj), fun e he => (by cases he)⟩
 
-/-- **never_stale.** With coherent writers, in every reachable state every stored value equals what
-    generation yields on the *current* world (after all accepted changes), for a request whose key on
-    the current world is the entry's key and whose dependencies are the entry's - under any interleaving
-    of Get/Add/Clear/ClearAll/Flush/eviction by any number of writers. -/
-theorem never_stale (D : Discipline K C V A R X) (hloc : D.GenLocal) (hkl : D.KeyLocal) (cap : Nat)
+/-- **never_stale.** With coherent writers, in every reachable state every stored value was generated (for
+    some request, under the entry's key) from a snapshot that **agrees with the current world on every declared
+    dependency of the entry** - under any interleaving of Get/Add/Clear/ClearAll/Flush/eviction by any number of
+    writers. No hypothesis about the generator or the key is needed for this; it does not say the value is what
+    generation yields now (generation may read more than it declares, see `KeyDetermines`). -/
+theorem never_stale (D : Discipline K C V A R X) (cap : Nat)
     (ops : List (Op K C V)) (hc : AllOps (Coherent D) [] ops) :
     ∀ e ∈ ((Cache.new cap).run ops).store, ∀ v, e.val = some v →
-      ∃ a, e.key = D.key a (D.W (histOf ops).length) ∧ e.deps = D.depsOf (D.read a) ∧
-        v = D.gen (D.read a) (D.W (histOf ops).length) := by
-  have := (FreshInv.init D cap).run hloc hkl ops hc
+      ∃ a S, e.key = D.key a S ∧ e.deps = D.depsOf (D.read a) ∧ v = D.gen (D.read a) S ∧
+        ∀ d ∈ e.deps, S d = D.W (histOf ops).length d := by
+  have := (FreshInv.init D cap).run ops hc
   simp only [List.nil_append] at this
-  exact this.fresh
+  exact this.origin
 
-/-- **cache_invisible.** If moreover the key is complete: whatever `Get` returns for proxy `b` - asking
-    with the key it computes on the *current* world - is exactly what a fresh generation for `b` on the
-    current world returns. -/
-theorem cache_invisible (D : Discipline K C V A R X) (hloc : D.GenLocal) (hkl : D.KeyLocal)
-    (hkey : D.KeyComplete) (cap : Nat) (ops : List (Op K C V)) (hc : AllOps (Coherent D) [] ops) (b : A) (v : V)
+/-- **cache_invisible.** Under `KeyDetermines`: whatever `Get` returns for proxy `b` - asking with the key it
+    computes on the *current* world - is exactly what a fresh generation for `b` on the current world returns.
+    (Readers that key on an older snapshot are not covered.) -/
+theorem cache_invisible (D : Discipline K C V A R X) (hkd : D.KeyDetermines)
+    (cap : Nat) (ops : List (Op K C V)) (hc : AllOps (Coherent D) [] ops) (b : A) (v : V)
     (hget : ((Cache.new cap).run ops).getVal (D.key b (D.W (histOf ops).length)) = some v) :
     v = D.gen (D.read b) (D.W (histOf ops).length) := by
   obtain ⟨e, he, hk, hv⟩ := getVal_some hget
-  obtain ⟨a, hka, _, hgen⟩ := never_stale D hloc hkl cap ops hc e he v hv
-  rw [hgen, hkey a b _ (hka.symm.trans hk)]
+  obtain ⟨a, S, hka, hd, hgen, hag⟩ := never_stale D cap ops hc e he v hv
+  rw [hgen]
+  exact hkd a b S _ (fun d hdm => hag d (hd ▸ hdm)) (hka.symm.trans hk)
 
 /-! ## Sharing across proxies is exactly key (in)completeness -/
 
@@ -514,15 +510,16 @@ theorem getVal_add_other {c : Cache K C V} (h : Inv c) (k k' : K) (hne : k' ≠ 
     rw [this]; exact hv
   · exact absurd hk.symm hne
 
-/-- **key_injective_invisible.** If the key is injective on what generation reads, two requests that
-    differ in a read attribute have different keys on every snapshot, and an entry inserted for one never
-    becomes visible to a lookup for the other. -/
-theorem key_injective_invisible (D : Discipline K C V A R X) (hkey : D.KeyComplete) (a b : A)
-    (hdiff : D.read a ≠ D.read b) (S : C → X) :
+/-- **key_injective_invisible.** If, on a snapshot, the key is injective on what generation reads (hypothesis
+    `hkey`, the part of `KeyDetermines` that concerns two proxies on one snapshot), two requests that differ in a
+    read attribute have different keys, and an entry inserted for one never becomes visible to a lookup for
+    the other. -/
+theorem key_injective_invisible (D : Discipline K C V A R X) (S : C → X)
+    (hkey : ∀ a b, D.key a S = D.key b S → D.read a = D.read b) (a b : A) (hdiff : D.read a ≠ D.read b) :
     D.key a S ≠ D.key b S ∧
     ∀ (c : Cache K C V), Inv c → ∀ v start deps v',
       (c.add (D.key a S) v start deps).getVal (D.key b S) = some v' → c.getVal (D.key b S) = some v' := by
-  have hne : D.key a S ≠ D.key b S := fun h => hdiff (hkey a b S h)
+  have hne : D.key a S ≠ D.key b S := fun h => hdiff (hkey a b h)
   exact ⟨hne, fun c hc v start deps v' hget => getVal_add_other hc _ _ hne.symm v start deps v' hget⟩
 
 end
@@ -535,12 +532,9 @@ def D0 : Discipline Nat Nat Nat Nat Nat Nat :=
   { key := fun a _ => a, read := fun a => a, depsOf := fun _ => [0], gen := fun _ S => S 0,
     W := fun n d => if d = 0 then n else 0 }
 
-theorem D0_genLocal : D0.GenLocal := by
-  intro r S S' h; exact h 0 (by simp [D0])
-
-theorem D0_keyLocal : D0.KeyLocal := fun _ _ _ _ => rfl
-
-theorem D0_keyComplete : D0.KeyComplete := fun _ _ _ h => h
+theorem D0_keyDetermines : D0.KeyDetermines := by
+  intro a b S S' hag hk
+  exact hag 0 (by simp [D0])
 
 /-- a writer that only promises to have generated from *some* earlier snapshot (no relation between
     its token and that snapshot) -/
@@ -566,7 +560,7 @@ def staleSchedule : List (Op Nat Nat Nat) :=
   [.clear 10 [0] [], .add 7 (some 0) (some 11) [0], .get 7]
 
 /-- **never_stale_incoherent_witness.** Without the token clause of the discipline the cache is not
-    invisible (although `D0` satisfies GenLocal, KeyLocal and KeyComplete): a writer that reads its
+    invisible (although `D0` satisfies `KeyDetermines`): a writer that reads its
     snapshot before the clock stores a stale entry. -/
 theorem never_stale_incoherent_witness : ¬ InvisibleWithoutTokenDiscipline := by
   intro h
@@ -608,19 +602,62 @@ example : ((Cache.new 3 : Cache Nat Nat Nat).run [.add 7 (some 0) (some 5) [0], 
 def Dbad : Discipline Nat Nat Nat Nat Nat Nat :=
   { key := fun _ _ => 0, read := fun a => a, depsOf := fun _ => [], gen := fun r _ => r, W := fun _ _ => 0 }
 
-/-- **key_incomplete_witness.** With an incomplete key, proxy 2 is served the resource generated for
-    proxy 1 although every writer is coherent (and GenLocal / KeyLocal hold). -/
+/-- **key_incomplete_witness.** With an incomplete key (`KeyDetermines` fails), proxy 2 is served the resource
+    generated for proxy 1 although every writer is coherent. -/
 theorem key_incomplete_witness :
-    ¬ Dbad.KeyComplete ∧ Dbad.GenLocal ∧ Dbad.KeyLocal ∧
+    ¬ Dbad.KeyDetermines ∧
     AllOps (Coherent Dbad) [] ([.add (Dbad.key 1 (Dbad.W 0)) (some (Dbad.gen (Dbad.read 1) (Dbad.W 0))) (some 5) []] : List (Op Nat Nat Nat)) ∧
     ((Cache.new 3 : Cache Nat Nat Nat).run
       [.add (Dbad.key 1 (Dbad.W 0)) (some (Dbad.gen (Dbad.read 1) (Dbad.W 0))) (some 5) []]).getVal (Dbad.key 2 (Dbad.W 0)) = some 1 ∧
     Dbad.gen (Dbad.read 2) (Dbad.W 0) = 2 := by
-  refine ⟨?_, fun _ _ _ _ => rfl, fun _ _ _ _ => rfl, ?_, by decide, rfl⟩
+  refine ⟨?_, ?_, by decide, rfl⟩
   · intro h
-    have := h 1 2 (fun _ => 0) rfl
+    have := h 1 2 (fun _ => 0) (fun _ => 0) (fun _ _ => rfl) rfl
     simp [Dbad] at this
   · exact ⟨Or.inr ⟨1, 0, rfl, rfl, by simp, rfl, fun j hj => by simp at hj⟩, trivial⟩
+
+/-! ### Key versioning: a stale entry may stay stored, it is unreachable
+
+`D1`: generation reads config `0` (declared) **and config `1` (not declared)** - like the real CDS generator reads
+PeerAuthentication without naming it in `DependentConfigs()`; the key carries the version of config `1` - like
+`peerAuthVersion` in `clusterCache.Key`. -/
+
+def D1 : Discipline (Nat × Nat) Nat (Nat × Nat) Nat Nat Nat :=
+  { key := fun a S => (a, S 1), read := fun a => a, depsOf := fun _ => [0], gen := fun _ S => (S 0, S 1),
+    W := fun n d => if d = 1 then n else 0 }
+
+theorem D1_keyDetermines : D1.KeyDetermines := by
+  intro a b S S' hag hk
+  have h0 : S 0 = S' 0 := hag 0 (by simp [D1])
+  have h1 : S 1 = S' 1 := by simpa [D1] using congrArg Prod.snd hk
+  simp [D1, h0, h1]
+
+/-- `D1`'s generator is NOT local to its declared dependencies (the hypothesis the previous formulation needed) -/
+theorem D1_not_genLocal :
+    ¬ ∀ r S S', (∀ d ∈ D1.depsOf r, S d = S' d) → D1.gen r S = D1.gen r S' := by
+  intro h
+  have := h 0 (fun _ => 0) (fun d => if d = 1 then 1 else 0) (by simp [D1])
+  simp [D1] at this
+
+/-- The schedule: an entry is generated on world 0; config `1` changes and `Clear [1]` runs (the entry does not
+    declare `1`, so it survives). -/
+def versionedSchedule : List (Op (Nat × Nat) Nat (Nat × Nat)) :=
+  [.add (7, 0) (some (0, 0)) (some 5) [0], .clear 10 [1] []]
+
+/-- **versioned_key_witness.** The schedule is coherent; afterwards the entry generated on the OLD world is still
+    stored (it is *not* what generation yields now), but a reader keying on the current world misses it - exactly as
+    `cache_invisible` promises - while a reader keying on the old world would still hit it. -/
+theorem versioned_key_witness :
+    AllOps (Coherent D1) [] versionedSchedule ∧
+    ((Cache.new 3 : Cache (Nat × Nat) Nat (Nat × Nat)).run versionedSchedule).store.length = 1 ∧
+    ((Cache.new 3 : Cache (Nat × Nat) Nat (Nat × Nat)).run versionedSchedule).getVal (D1.key 7 (D1.W 1)) = none ∧
+    ((Cache.new 3 : Cache (Nat × Nat) Nat (Nat × Nat)).run versionedSchedule).getVal (D1.key 7 (D1.W 0)) = some (0, 0) ∧
+    D1.gen (D1.read 7) (D1.W 1) = (0, 1) := by
+  refine ⟨⟨Or.inr ⟨7, 0, by simp [D1], rfl, by simp, by simp [D1], fun j hj => by simp at hj⟩, ⟨fun i hi => (by cases hi), ?_⟩, trivial⟩,
+    by decide, by decide, by decide, by simp [D1]⟩
+  intro d hd
+  have : d ≠ 1 := by simpa using hd
+  simp [D1, this, Op.inval]
 
 /-! ## The reverse index does not leak: every edge is live or pending in the evict queue -/
 
@@ -1036,29 +1073,28 @@ theorem proj_clear_coherent (D : Discipline K C V A R X) (isPA : C → Bool) (m 
     exact ⟨h, trivial⟩
 
 /-- **never_stale lifted to `XdsCacheImpl`.** For every sequence of calls on `XdsCacheImpl` whose projected
-    history of typed cache `t` is coherent, every value stored in that cache is what generation yields on the
-    current world. -/
-theorem impl_never_stale (D : Discipline K C V A R X) (hloc : D.GenLocal) (hkl : D.KeyLocal) (isPA : C → Bool)
+    history of typed cache `t` is coherent, every value stored in that cache was generated from a snapshot that
+    agrees with the current world on the entry's declared dependencies. -/
+theorem impl_never_stale (D : Discipline K C V A R X) (isPA : C → Bool)
     (maxSize : Int) (cdsOn rdsOn : Bool) (iops : List (IOp K C V)) (t : Ty) (c : Cache K C V)
     (hc : (Impl.run isPA (Impl.new maxSize cdsOn rdsOn : Impl K C V) iops).typed t = some c)
     (hcoh : AllOps (Coherent D) [] (projRun isPA maxSize t iops)) :
     ∀ e ∈ c.store, ∀ v, e.val = some v →
-      ∃ a, e.key = D.key a (D.W (histOf (projRun isPA maxSize t iops)).length) ∧ e.deps = D.depsOf (D.read a) ∧
-        v = D.gen (D.read a) (D.W (histOf (projRun isPA maxSize t iops)).length) := by
+      ∃ a S, e.key = D.key a S ∧ e.deps = D.depsOf (D.read a) ∧ v = D.gen (D.read a) S ∧
+        ∀ d ∈ e.deps, S d = D.W (histOf (projRun isPA maxSize t iops)).length d := by
   rw [impl_reachable_typed isPA maxSize cdsOn rdsOn iops t c hc]
-  exact never_stale D hloc hkl _ _ hcoh
+  exact never_stale D _ _ hcoh
 
 /-- **cache_invisible lifted to `XdsCacheImpl`** (including the dispatch on the entry type, disabled caches and
     the PeerAuthentication => EDS `ClearAll` rule, all inside `projRun`). -/
-theorem impl_cache_invisible (D : Discipline K C V A R X) (hloc : D.GenLocal) (hkl : D.KeyLocal)
-    (hkey : D.KeyComplete) (isPA : C → Bool) (maxSize : Int) (cdsOn rdsOn : Bool) (iops : List (IOp K C V))
+theorem impl_cache_invisible (D : Discipline K C V A R X) (hkd : D.KeyDetermines) (isPA : C → Bool) (maxSize : Int) (cdsOn rdsOn : Bool) (iops : List (IOp K C V))
     (t : Ty) (c : Cache K C V)
     (hc : (Impl.run isPA (Impl.new maxSize cdsOn rdsOn : Impl K C V) iops).typed t = some c)
     (hcoh : AllOps (Coherent D) [] (projRun isPA maxSize t iops)) (b : A) (v : V)
     (hget : c.getVal (D.key b (D.W (histOf (projRun isPA maxSize t iops)).length)) = some v) :
     v = D.gen (D.read b) (D.W (histOf (projRun isPA maxSize t iops)).length) := by
   rw [impl_reachable_typed isPA maxSize cdsOn rdsOn iops t c hc] at hget
-  exact cache_invisible D hloc hkl hkey _ _ hcoh b v hget
+  exact cache_invisible D hkd _ _ hcoh b v hget
 
 /-- **`XdsCacheImpl.Clear` is effective in all four caches**; a PeerAuthentication among the cleared
     configs empties the EDS cache entirely. -/
